@@ -1,6 +1,7 @@
 /-
   Observable labels of the cqueue model and its replay machine (scenario family `cqueue`, live mode).
-  The driver executes the `step` function of `Model/Cqueue.lean` with `cfg = fixed` on implementation traces.
+  The driver executes the `step` function of `Model/Cqueue.lean` with `cfg = fixed` on implementation traces
+  (plus, at the one place where it matters, `{ fixed with f10 := false }`: the tree before F10.patch).
 
   What is tied: every hooked operation on the cqueue's own objects (`ev_queue`, `to_wake`, `cnt`, `total`,
   `is_panicking`, per-arm `extra` and `wait_kernel`), on the `selectors` mutex (`sync.mutex.cnt`, `sync.poison.failed`)
@@ -270,11 +271,19 @@ def cands (rs : RSt) (_t : Nat) (ev : Event) : List (Label × RSt × String) :=
       -- returned (the arm blocked in its user code: no event): both orders explain what follows
       let early : List RSt :=
         if onStack s.ppc a && pc == .top && !isTail then (match pstepR rs .go with | some r => [r] | none => []) else []
+      -- the one place where the code before F10.patch (a53ef70) behaves differently: an arm that runs on the stack of a
+      -- poller which drains *inside an unwind* does not raise its Cancel panic (`cfg.f10 = false`). Offered as a second
+      -- candidate exactly there, so traces of both trees are explained (the coverage names it `/pre-f10`)
       let mk (e : Env) (nm : String) : List (Label × RSt × String) :=
-        ([rs] ++ early).filterMap fun r =>
-          match step fixed r.s (.arm a) e with
-          | some s' => some (alabel sh a pc tp e, { r with s := s' }, nm)
-          | none => none
+        ([rs] ++ early).flatMap fun r =>
+          (match step fixed r.s (.arm a) e with
+           | some s' => [(alabel sh a pc tp e, { r with s := s' }, nm)]
+           | none => []) ++
+          (if r.s.sh.unwinding && onStack r.s.ppc a then
+            (match step { fixed with f10 := false } r.s (.arm a) e with
+             | some s' => [(alabel sh a pc tp e, { r with s := s' }, nm ++ "/pre-f10")]
+             | none => [])
+           else [])
       let inUser : Bool := pc == .top || pc == .bot
       -- cancel checks / registrations of the user code (and of its own kernel tails): value-checked self-loops
       let noise : List (Label × RSt × String) :=
